@@ -27,4 +27,25 @@ PROPS = {
     },
 }
 
+PROPS["C03"] = {
+    "level_text": "Theorems (Lean 4, all statuses/messages/details/error kinds): callerSees(serverSends(handlerReturns e)) = normalise e for unary replies and for stream trailers; success at the caller iff the handler returned nil; a failed handler is never a success; explicit OK status with a body is a success; a peer reset is never a success; a non-OK status wins over a body. Negative witnesses for the pre-repair OK-status and reset readings. Tied to /repo by flags (okStatusIsSuccess, resetIsError, closeSendNoopWhenDone, resetViaWriter), the SendTrailer skeleton, and a lock-step run of real RPCs over codes x messages x details x error kinds x RPC kinds x positions, foreign-peer replies from a scripted transport, and the forced CloseAndRecv-after-end schedule.",
+    "level_note": "Trusted: Lean kernel; extractor; harness. grpc status.FromError/FromContextError/FromProto are modelled as the three-way split of their source and sampled, not proved. The reset/trailer wire order and position-independence over all interleavings are carried by the ServerConn/ClientStream transition-system theorems.",
+    "technique": "Lean 4 proof (case analysis over the status algebra) + flags regenerated from source + lock-step differential through real RPCs",
+    "props": ["Goat.Props.C03"],
+    "tie": ["Goat.Tie.C03"],
+    "rule": "each case is a distinct (mode, error kind, code, message, details, position) tuple run as a real RPC, or a distinct foreign reply shape; non-trivial = handler error is non-nil or the reply is foreign",
+    "modelled_not_verified": COMMON_MNV + ["anypb details compared as (type url, value) pairs; proto strings must be valid UTF-8 to cross a serialising transport"],
+    "assumptions": [],
+}
+PROPS["C06"] = {
+    "level_text": "Theorems (Lean 4, every handler program and every outcome of each transport write): the envelopes a serverStream puts on the wire are accepted by the server->client automaton (optional header-only first, bodies, exactly one trailer with status, response metadata on the first envelope only, constant route, nothing after the trailer); the trailer is present and carries the status whenever the final write succeeds; every envelope carries the stream id; the unary reply is one envelope with header, trailer and body-or-non-OK-status and swaps source/destination. The automata are the executable monitors: every per-id per-direction projection of every wire tap is decided by the Lean driver. Tied to /repo by flags, the serverStream/resetStream/runStream skeletons and an operation-by-operation lock-step of the real serverStream object against the model.",
+    "level_note": "Trusted: Lean kernel; extractor; harness wire taps (writers serialised so that tap order = channel order). Client-side emission order and the reset-after-trailer order through the single writer are theorems over the ClientStream / ServerConn transition systems.",
+    "technique": "Lean 4 proof (induction over handler programs against a protocol automaton) + executable automata as monitors on real wire taps + lock-step of serverStream",
+    "props": ["Goat.Props.C06"],
+    "tie": ["Goat.Tie.C06"],
+    "rule": "lock-step cases: random handler programs (0-7 operations, random write outcomes) on the real serverStream; wire cases: one per (id, direction) projection of the wire taps of mixed concurrent workloads (3 stream kinds x 8 handler programs x 4 client programs, unary ok/error, cancelled and expired streams), both transport kinds; non-trivial = projection has at least one envelope",
+    "modelled_not_verified": COMMON_MNV,
+    "assumptions": ["handlers do not use the stream after returning; a foreign peer omitting the leading / of the method is outside the quantifier"],
+}
+
 NOT_YET = {}
